@@ -688,6 +688,35 @@ def r_layout_source(F, V):
                 R.inst(key, "layout adjusted inside the allocation shim", "violation", True, where(body, bb=i))
             else:
                 R.inst(key, "allocate(layout) receives the shim's own Layout argument", "ok", True, where(body, bb=i))
+    # (vii) the block pointer and the control pointer are related by the SAME offset in both directions:
+    # new_uninitialized sets ctrl = block + ctrl_offset, allocation_info returns block = ctrl - ctrl_offset, where
+    # ctrl_offset is the second component of calculate_layout_for(..) in that body
+    for fn, op, what in (("raw::RawTableInner::new_uninitialized", "add", "ctrl = block + ctrl_offset"), ("raw::RawTableInner::allocation_info", "sub", "block = ctrl - ctrl_offset")):
+        body = F.bodies.get(fn)
+        if body is None:
+            R.undec("%s not found" % fn)
+            continue
+        key = "%s|ctrl-offset" % fn
+        hits = []
+        for i, t in body.calls():
+            cp = callee_path(t) or ""
+            if cp.endswith("T::" + op) or cp.endswith("NonNull::" + op):
+                if len(t["args"]) < 2:
+                    continue
+                og = body.origins(t["args"][1])
+                from_layout = any(o[0] == "call" and (callee_path(o[2]) or "").endswith("TableLayout::calculate_layout_for") for o in og)
+                other_calls = [callee_path(o[2]) or "?" for o in og if o[0] == "call" and not (callee_path(o[2]) or "").endswith("TableLayout::calculate_layout_for")]
+                hits.append((i, from_layout and not other_calls))
+        # the result must be built from such an offset computation and from nothing else pointer-like (e.g. bucket_ptr)
+        stray = [i for i, t in body.calls() if (callee_path(t) or "").endswith("::bucket_ptr") or (callee_path(t) or "").endswith("::data_end")]
+        nu += 1
+        if hits and all(ok for _, ok in hits) and not stray:
+            R.inst(key, "%s with ctrl_offset = calculate_layout_for(..).1" % what, "ok", True, where(body, bb=hits[0][0]))
+        else:
+            R.violation(key, body, "%s does not relate the block pointer and the control pointer by the ctrl_offset of calculate_layout_for (expected %s): with padding in front of the data part "
+                        "(size_of::<T>() * buckets not a multiple of the alignment) the pointer handed to deallocate is not the one allocate returned" % (fn, what),
+                        line=line_of(body, bb=(hits[0][0] if hits else (stray[0] if stray else 0))))
+            R.inst(key, "block/ctrl offset not from calculate_layout_for", "violation", True, where(body))
     R.floor("Layout consumers", nu, {"posctl": 0}.get(F.cfg, 3))
     # (iii) every TableLayout argument is the caller's own parameter or the associated const TABLE_LAYOUT
     nt = 0
